@@ -213,6 +213,8 @@ pub struct World<C: MlsConfig> {
     pub group_rows: Vec<(String, String)>,
     /// every leaf stamp given to the group model so far (its canonical printing treats all other stamps as model-made)
     pub group_known: std::collections::BTreeSet<usize>,
+    /// identities of current members that every application refuses for the rest of this round only (offender kind 10)
+    pub temp_rejected: Vec<Vec<u8>>,
 }
 
 /// Abstract view of one tree node, numbers from `Stamps`.
@@ -422,6 +424,7 @@ pub fn new_world<C: MlsConfig>(log: SharedCryptoLog, scratch: &str) -> World<C> 
         ph_layers: Default::default(),
         group_rows: vec![],
         group_known: Default::default(),
+        temp_rejected: vec![],
     }
 }
 
